@@ -8,6 +8,7 @@ import XL.Model.FloatNum
 import XL.Model.Lex
 import XL.Model.BookProto
 import XL.Model.Circ
+import XL.Model.Look
 /-!
 # Request dispatcher of the executable model
 -/
@@ -196,11 +197,57 @@ def answerParse (cmd : String) (args : List String) : Option String :=
         | .error (.escape w) => "escape:" ++ w)
   | _, _ => none
 
+def parseVals (ts : List String) : Option (List (Val Float)) := ts.mapM BookProto.parseVal?
+
+def parseMode (s : String) : Option Int :=
+  match s with
+  | "-1" => some (-1) | "0" => some 0 | "1" => some 1 | _ => none
+
+/-- `match mode key v…`, `lookup mode key n k… r…`, `vlookup t key R C v… col approx`, `index R C v… row col`,
+`countif crit v…`, `sumif crit n t… o…`, `averageif crit n t… o…` -/
+def answerLook (cmd : String) (args : List String) : Option String :=
+  match cmd, args with
+  | "match", m :: k :: vs => do
+      let mode ← parseMode m; let key ← BookProto.parseVal? k; let keys ← parseVals vs
+      pure (BookProto.showVal (xmatch mode key keys))
+  | "lookup", m :: k :: n :: rest => do
+      let mode ← parseMode m; let key ← BookProto.parseVal? k; let cnt ← n.toNat?
+      let keys ← parseVals (rest.take cnt); let res ← parseVals (rest.drop cnt)
+      pure (BookProto.showVal (xlookup mode key keys res))
+  | "vlookup", t :: k :: R :: C :: rest => do
+      let key ← BookProto.parseVal? k; let r ← R.toNat?; let c ← C.toNat?
+      let vs ← parseVals (rest.take (r * c))
+      match rest.drop (r * c) with
+      | [col, ap] => do
+        let cn ← col.toNat?
+        pure (BookProto.showVal (xvlookup (t == "1") key (BookProto.chunk c r vs) cn (ap == "1")))
+      | _ => none
+  | "index", R :: C :: rest => do
+      let r ← R.toNat?; let c ← C.toNat?
+      let vs ← parseVals (rest.take (r * c))
+      match rest.drop (r * c) with
+      | [row, col] => do
+        let i ← row.toNat?; let j ← col.toNat?
+        pure (BookProto.showVal (xindex (BookProto.chunk c r vs) i j))
+      | _ => none
+  | "countif", k :: vs => do
+      let crit ← BookProto.parseVal? k; let test ← parseVals vs
+      pure (BookProto.showVal (countIf crit test))
+  | "sumif", k :: n :: rest => do
+      let crit ← BookProto.parseVal? k; let cnt ← n.toNat?
+      let test ← parseVals (rest.take cnt); let op ← parseVals (rest.drop cnt)
+      pure (BookProto.showVal (sumIf crit test op))
+  | "averageif", k :: n :: rest => do
+      let crit ← BookProto.parseVal? k; let cnt ← n.toNat?
+      let test ← parseVals (rest.take cnt); let op ← parseVals (rest.drop cnt)
+      pure (BookProto.showVal (averageIf crit test op))
+  | _, _ => none
+
 def answer (line : String) : String :=
   match (line.trimAscii.toString.splitOn " ").filter (· ≠ "") with
   | [] => "bad-request"
   | cmd :: args =>
-    match ((((answerRect cmd args).orElse (fun _ => answerRef cmd args)).orElse (fun _ => answerCal cmd args)).orElse (fun _ => answerOps cmd args)).orElse (fun _ => answerParse cmd args) with
+    match (((((answerRect cmd args).orElse (fun _ => answerRef cmd args)).orElse (fun _ => answerCal cmd args)).orElse (fun _ => answerOps cmd args)).orElse (fun _ => answerParse cmd args)).orElse (fun _ => answerLook cmd args) with
     | some r => r
     | none => "bad-request"
 
